@@ -828,7 +828,7 @@ class World:
                 self.problem(("C09",), "ended-without-result", f"container {mc.cid} ended {mc.status} without a result")
 
 
-def run_with_choices(case, max_amb=6, max_runs=96):
+def run_with_choices(case, max_amb=6, max_runs=96, driver_factory=None, max_steps=200):
     """Run a case; if the model met ambiguous (float-boundary) decisions and the run shows
     problems, explore the other resolutions before reporting.  The number of decisions met
     depends on earlier choices (an early OOM cuts the list short, a longer I/O phase adds a
@@ -843,7 +843,7 @@ def run_with_choices(case, max_amb=6, max_runs=96):
     while queue and runs < max_runs:
         v = queue.pop(0)
         w = World(case, v)
-        probs = w.run()
+        probs = w.run(driver=driver_factory(), max_steps=max_steps) if driver_factory is not None else w.run()
         runs += 1
         if first is None:
             first = (w, probs)
